@@ -510,7 +510,7 @@ def _run_carets(it, rng):
         anchors = [SimpleNamespace(name=("vcaret_%d" if vert else "caret_%d") % (i + 1), x=0 if vert else x, y=x if vert else 0) for i, x in enumerate(xs)]
         pos = {a.name: (a.x, a.y) for a in anchors}
         stub = SimpleNamespace(context=SimpleNamespace(orderedGlyphSet={"f_i": SimpleNamespace(anchors=anchors)}, isVariable=False),
-                               _getAnchor=lambda g, n: pos[n])
+                               _getAnchor=lambda g, n, anchor=None: (anchor.x, anchor.y) if anchor is not None else pos[n])
         return GdefFeatureWriter._getLigatureCarets(stub).get("f_i", [])
 
     ded = lambda xs: [rat(x) for x in dict.fromkeys(xs)]
